@@ -13,9 +13,10 @@ clauses (names as they appear in `margins` / violations)
   energy-residual-*   "no drift beyond what dt^2 and the SCF threshold explain": with e(t;dt)=E(t)-E(0) on the common
                       grid, r(t) = (4 e(t;dt/2) - e(t;dt))/3 is the dt-independent residual (+ O(dt^4)); pointwise
                       max|r| and windowed drift |mean_last_third r - mean_first_third r| must both be
-                      <= RESID_K*dt^2 * max|e(t;dt)| + 100*eps*N                                              (d)
+                      <= RESID_K*dt^2 * max|e(t;dt)| + 100*eps*N + 5e-6 eV (piecewise-smooth energy function, see PES_STEP)  (d)
   Ek-row / T-row      stored Ek(s), T(s) recomputed from /velocities(s) (live constants 1e-12, CODATA 1e-6,
-                      n_dof = 3N - {0,3,6} for remove_com None/linear/angular as documented)       (e)
+                      n_dof = 3N - {0,3,6} for remove_com None/linear/angular as documented; 3N-5 also accepted
+                      under 'angular' when the real atoms are collinear, e.g. any diatomic)               (e)
   Ep-sp / F-sp        stored Ep(s), /forces(s) vs an independent cold single point at /coordinates(s):
                       1e-8 + 20 eps eV, 1e-6 + 2e3 eps eV/A (C04 algebra)                          (e)
   steps-rows          every stream has rows 0..N exactly                                            (e)
@@ -47,6 +48,11 @@ CASE_TIMEOUT = 1500.0
 BUDGET_S = {"quick": 200, "thorough": 1700}
 
 EPS = 1e-10
+CIS_TOL = 1e-9  # Davidson and Z-vector tolerance of the excited-surface cells
+PES_STEP = 5e-6  # eV.  The energy function is only piecewise smooth: the overlap auxiliary-integral series switch gives steps of
+# ~1.2-1.5 micro-eV in Etot (measured: AM1 C-H pair at R = 1.0646 A, where R*(zeta_p(C)-zeta_s(H))/2 crosses 0.5; ground and
+# excited surface alike, cold single points reproduce it to 1e-10).  A trajectory that crosses such a surface carries a bounded,
+# dt-independent +-step in Ek+Ep; a few of them are allowed for (no secular drift results: the step is undone on the way back).
 TOL_P = 1e-12
 TOL_L = 1e-8
 TOL_REV_X = 1e-7
@@ -140,7 +146,7 @@ def _settings(case):
 
     if case.get("excited"):
         return run.settings(case["method"], eps=EPS, converger=(2,),
-                            excited={"n_states": 3, "tolerance": 1e-9, "method": "cis"}, active_state=1)
+                            excited={"n_states": 3, "tolerance": case.get("cis_tol", CIS_TOL), "method": "cis"}, active_state=1)
     return run.settings(case["method"], eps=EPS, converger=(2,))
 
 
@@ -264,15 +270,18 @@ def _check_run(acc, h, Zr, dt, nsteps, remove_com, t_total, tag):
     # (e) rows
     ek_amu = np.array([md.kinetic_amu(mm, v[s_]) for s_ in range(len(v))])
     Ek, T = h["Ek"], h["T"]
-    nd = _ndof_rule(nat, remove_com)
+    nds = [_ndof_rule(nat, remove_com)]
+    if remove_com is not None and str(remove_com[0]).lower() == "angular" and md.inertia_rank(mm, x[0]) < 3:
+        nds.append(3.0 * nat - 5.0)  # linear arrangement (always for a diatomic): two rotations only
+    nds = [n_ for n_ in nds if n_ > 0]
     sE = max(np.abs(Ek).max(), 1e-300)
     acc.upd("Ek-row-live", np.abs(ek_amu * live["KINETIC_ENERGY_SCALE"] - Ek).max() / sE, TOL_ROW_LIVE, {"run": tag})
     acc.upd("Ek-row-codata", np.abs(ek_amu * md.REF_KE_SCALE - Ek).max() / sE, TOL_ROW_REF, {"run": tag})
-    sT = max(np.abs(T).max(), 1e-300)
-    acc.upd("T-row-live", np.abs(2.0 * Ek * live["TEMPERATURE_SCALE"] / nd - T).max() / sT, TOL_ROW_LIVE,
-            {"run": tag, "n_dof_rule": nd})
-    acc.upd("T-row-codata", np.abs(2.0 * ek_amu * md.REF_KE_SCALE * md.REF_TEMP_SCALE / nd - T).max() / sT, TOL_ROW_REF,
-            {"run": tag, "n_dof_rule": nd})
+    sT = max(np.abs(T).max(), 1e-300) if np.isfinite(T).all() else float("nan")
+    acc.upd("T-row-live", min(np.abs(2.0 * Ek * live["TEMPERATURE_SCALE"] / nd - T).max() / sT for nd in nds), TOL_ROW_LIVE,
+            {"run": tag, "n_dof_allowed": nds})
+    acc.upd("T-row-codata", min(np.abs(2.0 * ek_amu * md.REF_KE_SCALE * md.REF_TEMP_SCALE / nd - T).max() / sT for nd in nds),
+            TOL_ROW_REF, {"run": tag, "n_dof_allowed": nds})
     # documented velocity-Verlet recurrences between consecutive stored rows
     a = f * md.REF_ACC_SCALE / mm[None, :, None]
     ex = x[1:] - (x[:-1] + dt * v[:-1] + 0.5 * dt * dt * a[:-1])
@@ -365,10 +374,10 @@ def _family(case):
                 acc.window("energy-std-scaling", float(devc.std() / devf.std()), STD_LO, STD_HI, det)
                 acc.mon["energy_ratios"] += 1
             r = (4.0 * devf - devc) / 3.0
-            acc.upd("energy-residual-pointwise", float(np.abs(r).max()), frac * scale + noise, det)
+            acc.upd("energy-residual-pointwise", float(np.abs(r).max()), frac * scale + noise + PES_STEP, det)
             t = len(Ec) // 3
             B = float(r[-t:].mean() - r[:t].mean())
-            acc.upd("energy-residual-drift", abs(B), frac * scale + noise,
+            acc.upd("energy-residual-drift", abs(B), frac * scale + noise + PES_STEP,
                     dict(det, drift=[float(devc[-t:].mean() - devc[:t].mean()), float(devf[-t:].mean() - devf[:t].mean())]))
             obs.setdefault("resid_frac", {})["mol%d/%g" % (k, dtc)] = [float("%.3g" % (np.abs(r).max() / scale)),
                                                                       float("%.3g" % (abs(B) / scale))]
